@@ -306,29 +306,35 @@ type C10Case struct {
 	ParseRec uint32 // entryParse: which record body of the (mutated) file is handed to the parser
 }
 
-func hostileValue(idx int, old uint64, width int, fileLen uint64, recOffsets []uint64, seed uint64) uint64 {
-	tbl := []uint64{0, 1, old - 1, old + 1, 1<<31 - 1, 1 << 31, 1<<32 - 1, 1 << 63, 1<<64 - 1, fileLen, fileLen - 1, fileLen + 1,
+const dearValue = 1<<31 - 2 // the largest length makeSafe accepts: every use costs a 2 GiB allocation
+
+func hostileTable(old, fileLen uint64) []uint64 {
+	return []uint64{0, 1, old - 1, old + 1, 1<<31 - 1, 1 << 31, 1<<32 - 1, 1 << 63, 1<<64 - 1, fileLen, fileLen - 1, fileLen + 1,
 		24, 25, 1<<32 - 8, 1<<32 - 9, 8, 9, old + 9, old - 9, 1 << 16, 1<<24 + 7, 1<<63 - 1, 1<<63 + 1, old * 2, 1 << 27,
-		1<<64 - 9, 1<<64 - 8, 1<<64 - 10, 1<<64 - 17, 1<<64 - 2, -fileLen, 1<<63 - 9, -(old + 9), 1<<31 - 2}
+		1<<64 - 9, 1<<64 - 8, 1<<64 - 10, 1<<64 - 17, 1<<64 - 2, -fileLen, 1<<63 - 9, -(old + 9), dearValue}
+}
+
+var nHostile = len(hostileTable(0, 0)) + 2 // + two "offset of another record" picks
+
+func hostileValue(idx int, old uint64, width int, fileLen uint64, recOffsets []uint64, seed uint64) uint64 {
+	tbl := hostileTable(old, fileLen)
 	var v uint64
 	switch {
 	case idx < len(tbl):
 		v = tbl[idx]
 	case len(recOffsets) > 0:
-		v = recOffsets[seed%uint64(len(recOffsets))]
+		v = recOffsets[(seed+uint64(idx))%uint64(len(recOffsets))]
 	default:
 		v = seed
 	}
-	if idx == len(tbl)-1 && seed%8 != 0 {
-		v = 1<<31 - 1 // the dear 2 GiB-minus-one allocation is kept rare
+	if v == dearValue && seed%8 != 0 {
+		v = 1<<31 - 1 // the dear 2 GiB-minus-two allocation is kept rare in the random part
 	}
 	if width < 8 {
 		v &= (1 << (8 * uint(width))) - 1
 	}
 	return v
 }
-
-const nHostile = 37
 
 func putUint(b []byte, width int, v uint64) {
 	switch width {
@@ -718,10 +724,11 @@ var sweepEntries = []struct {
 }
 
 func sweepValue(idx int, old uint64, width int, fileLen uint64, recOffsets []uint64) (uint64, bool) {
-	if idx == nHostile-1 { // the 2 GiB-minus-two allocation is left to the random part
+	v := hostileValue(idx, old, width, fileLen, recOffsets, 8)
+	if v == dearValue || (width == 4 && v == dearValue&0xffffffff) { // the 2 GiB-minus-two allocation is left to the random part
 		return 0, false
 	}
-	return hostileValue(idx, old, width, fileLen, recOffsets, 8), true
+	return v, true
 }
 
 func enumC10Sweep(yield func(C10Sweep) bool) {
@@ -742,7 +749,7 @@ func enumC10Sweep(yield func(C10Sweep) bool) {
 		}
 		nf := len(specdec.Fields(d))
 		for f := 0; f < nf; f++ {
-			for v := 0; v < nHostile-1; v++ {
+			for v := 0; v < nHostile; v++ {
 				k++
 				if k%n != sh {
 					continue
